@@ -33,15 +33,18 @@ def run_continue(case):
     warm = cli.run(base + ["-o", "w.h5"] + cli.optargs(dict(oA, rotations=rot(1))), wd)
     rA = cli.run(base + ["-o", "a.h5"] + cli.optargs(oA), wd)
     oB1 = dict(o, rotations=rot(L1), outstep=case["outstep"], SavePhaseSpace=1)
-    rB1 = cli.run(base + ["-o", "b1.h5"] + cli.optargs(oB1), wd)
+    # both endings are accepted for results files, for the first leg and for the continued run independently
+    e1, e2 = case.get("ext1", "h5"), case.get("ext2", "h5")
+    b1name, b2name = "b1." + e1, "b2." + e2
+    rB1 = cli.run(base + ["-o", b1name] + cli.optargs(oB1), wd)
     for r in (rA, rB1):
         if r.rc != 0 or "Finished." not in r.out:
             return Outcome(False, True, ["runfail"], "run failed: %s %s" % (r.out[-300:], r.err[-300:]), sig="c11:runfail")
-    hA, hB1 = cli.H5(os.path.join(wd, "a.h5")), cli.H5(os.path.join(wd, "b1.h5"))
+    hA, hB1 = cli.H5(os.path.join(wd, "a.h5")), cli.H5(os.path.join(wd, b1name))
     tB1 = np.rint(hB1["/PhaseSpace/axis0"].astype(np.float64) * steps).astype(int)
     nrec = len(tB1)
     sel = case["startstep"]
-    oB2 = dict(o, outstep=case["outstep"], SavePhaseSpace=case["save2"], InitialDistFile="b1.h5")
+    oB2 = dict(o, outstep=case["outstep"], SavePhaseSpace=case["save2"], InitialDistFile=b1name)
     if sel is None:
         idx = nrec - 1
     else:
@@ -54,12 +57,12 @@ def run_continue(case):
         # continuing "in place": the results go to the very file the run starts from (what rerunning with the saved .cfg and
         # -i does).  The comparison keeps its own copy of the first leg.
         import shutil
-        shutil.copy(os.path.join(wd, "b1.h5"), os.path.join(wd, "b2.h5"))
-        oB2["InitialDistFile"] = "b2.h5"
-    rB2 = cli.run(base + ["-o", "b2.h5"] + cli.optargs(oB2), wd)
+        shutil.copy(os.path.join(wd, b1name), os.path.join(wd, b2name))
+        oB2["InitialDistFile"] = b2name
+    rB2 = cli.run(base + ["-o", b2name] + cli.optargs(oB2), wd)
     if rB2.rc != 0 or "Finished." not in rB2.out:
         return Outcome(False, True, ["runfail"], "continued run failed: %s %s" % (rB2.out[-400:], rB2.err[-300:]), sig="c11:runfail2")
-    hB2 = cli.H5(os.path.join(wd, "b2.h5"))
+    hB2 = cli.H5(os.path.join(wd, b2name))
     cls = ["ren%d" % (ren if ren <= 0 else 1), "sel_default" if sel is None else "sel%d" % (0 if sel >= 0 else 1),
            "wake" if o.get("VacuumGap", 0.03) != 0 else "nowake"] + (["inplace"] if case.get("inplace") else [])
     nontriv = bool(L1 >= 5 and L2 >= 5 and o.get("InitialDistZoom", 1.0) != 1.0)
@@ -172,6 +175,8 @@ def continue_cases(draw):
     c = dict(opts=o, L1=L1, L2=L2, outstep=outstep, startstep=sel, save2=draw(st.sampled_from([0, 1, 3])))
     if draw(st.integers(0, 4)) == 0:
         c["inplace"] = True
+    if draw(st.integers(0, 2)) == 0:
+        c["ext1"], c["ext2"] = draw(st.sampled_from([("hdf5", "h5"), ("h5", "hdf5"), ("hdf5", "hdf5")]))
     return c
 
 
@@ -194,7 +199,9 @@ def run_refuse(case):
     elif kind == "nodataset":
         cli.mkds(path, "/SomethingElse/data", np.zeros((1, 1, 16, 16), np.float32))
     elif kind in ("twobunch", "truncated"):
-        o2 = dict(o, BunchCurrent=[1e-3, 1e-3] if kind == "twobunch" else [1e-3], RoundPadding=True)
+        # a results file of a run with several bunches (2, 3, 4 or 9 of them) ...
+        nbun = case.get("nbun", 2)
+        o2 = dict(o, BunchCurrent=[1e-3] * nbun if kind == "twobunch" else [1e-3], RoundPadding=True)
         if kind == "twobunch":
             o2["alpha0"] = gen.f32(cfggen.alpha0_for_spacing(1.5, o2))
         r0 = cli.run(["-c", "/dev/null", "-o", name] + cli.optargs(o2), wd)
@@ -206,8 +213,12 @@ def run_refuse(case):
         for f in ("start.h5.cfg", "start.h5.log"):
             if os.path.exists(os.path.join(wd, f)):
                 os.remove(os.path.join(wd, f))
+    if kind == "twobunch" and case.get("grid2"):
+        # ... offered to a run with another grid size, e.g. the one that makes the total number of cells agree
+        # (4 bunches of 16x16 = one grid of 32x32: round-8 seed C11j pours them into it)
+        o = dict(o, GridSize=int(case["grid2"]))
     r = cli.run(["-c", "/dev/null", "-o", "out.h5", "-i", name] + cli.optargs(o), wd)
-    cls = ["refuse_" + kind]
+    cls = ["refuse_" + kind] + (["nbun%d" % case.get("nbun", 2)] if kind == "twobunch" else [])
     log = open(os.path.join(wd, "out.h5.log")).read() if os.path.exists(os.path.join(wd, "out.h5.log")) else ""
     if r.signal or r.timed_out:
         return Outcome(False, True, cls, "start file (%s): program died from signal %s" % (kind, r.signal), sig="c11:refuse:crash")
@@ -220,8 +231,12 @@ def run_refuse(case):
 
 @st.composite
 def refuse_cases(draw):
-    return dict(kind=draw(st.sampled_from(["missing", "empty", "garbage", "text", "nodataset", "twobunch", "truncated"])),
-                dseed=draw(gen.seeds()), size=draw(st.sampled_from([1, 7, 64, 4096])), frac=draw(st.floats(0.05, 0.95)))
+    c = dict(kind=draw(st.sampled_from(["missing", "empty", "garbage", "text", "nodataset", "twobunch", "twobunch", "truncated"])),
+             dseed=draw(gen.seeds()), size=draw(st.sampled_from([1, 7, 64, 4096])), frac=draw(st.floats(0.05, 0.95)))
+    if c["kind"] == "twobunch":
+        c["nbun"] = draw(st.sampled_from([2, 2, 3, 4, 4, 9]))
+        c["grid2"] = draw(st.sampled_from([0, 0, 32, 48, 16 * int(round(c["nbun"] ** 0.5)), 16 * c["nbun"]]))
+    return c
 
 
 def subs(tier):
